@@ -16,7 +16,7 @@ for d in sorted(glob.glob(os.path.join(V, 'seeded', '*-*'))):
     if only and name not in only and name.split('-')[0] not in only:
         continue
     prop = name.split('-')[0]
-    wt = '/tmp/seedchk/sweep_%s' % name
+    wt = '/tmp/seedchk/sweep_%s_%d' % (name, os.getpid())
     os.makedirs('/tmp/seedchk', exist_ok=True)
     subprocess.run(['git', '-C', '/repo', 'worktree', 'remove', '--force', wt], capture_output=True)
     subprocess.check_call(['git', '-C', '/repo', 'worktree', 'add', '-q', '--detach', wt, 'HEAD'])
@@ -53,9 +53,14 @@ for d in sorted(glob.glob(os.path.join(V, 'seeded', '*-*'))):
             st['caught'] = r.returncode == 1 and bool(st['violation'])
     finally:
         subprocess.run(['git', '-C', '/repo', 'worktree', 'remove', '--force', wt], capture_output=True)
-    status[name] = st
     print(name, {k: st.get(k) for k in ('applies', 'demo_fails', 'caught')}, flush=True)
-    json.dump(status, open(status_path, 'w'), indent=1, sort_keys=True)
+    # several sweeps may run side by side: merge into the file under a lock
+    import fcntl
+    with open(status_path + '.lock', 'w') as lk:
+        fcntl.flock(lk, fcntl.LOCK_EX)
+        status = json.load(open(status_path)) if os.path.exists(status_path) else {}
+        status[name] = st
+        json.dump(status, open(status_path, 'w'), indent=1, sort_keys=True)
 subprocess.run(['/venv/bin/python', os.path.join(V, 'harness', 'gen_constants.py')], capture_output=True)
 swept = {os.path.basename(d).split('-')[0] for d in glob.glob(os.path.join(V, 'seeded', '*-*'))
          if not only or os.path.basename(d) in only or os.path.basename(d).split('-')[0] in only}
